@@ -104,6 +104,8 @@ pub struct Run {
     samples: Mutex<Vec<Value>>,
     sections: Mutex<Vec<SectionReport>>,
     excluded_known: AtomicU64,
+    subcases: AtomicU64,
+    enum_nontrivial: AtomicU64,
     known: Vec<Known>,
     known_hit: Mutex<BTreeSet<usize>>,
     violations: Mutex<Vec<(String, String)>>, // (replay path, message)
@@ -144,6 +146,8 @@ impl Run {
             samples: Mutex::new(vec![]),
             sections: Mutex::new(vec![]),
             excluded_known: AtomicU64::new(0),
+            subcases: AtomicU64::new(0),
+            enum_nontrivial: AtomicU64::new(0),
             known,
             known_hit: Mutex::new(BTreeSet::new()),
             violations: Mutex::new(vec![]),
@@ -243,6 +247,7 @@ impl Run {
                     let mut runner = TestRunner::new(cfg);
                     let failed = Cell::new(false);
                     let evals = Cell::new(0u64);
+                    let subs = Cell::new(0u64);
                     let local_classes: RefCell<BTreeMap<&'static str, u64>> = RefCell::new(BTreeMap::new());
                     let local_nt: RefCell<HashSet<u64>> = RefCell::new(HashSet::new());
                     let local_samples: RefCell<Vec<Value>> = RefCell::new(vec![]);
@@ -266,6 +271,7 @@ impl Run {
                         evals.set(evals.get() + 1);
                         match check(&case) {
                             Ok(pass) => {
+                                subs.set(subs.get() + pass.subcases);
                                 let mut lc = local_classes.borrow_mut();
                                 for c in &pass.classes {
                                     *lc.entry(c).or_insert(0) += 1;
@@ -292,6 +298,7 @@ impl Run {
                     });
                     sec_evals.fetch_add(evals.get(), Ordering::Relaxed);
                     self.evaluations.fetch_add(evals.get(), Ordering::Relaxed);
+                    self.subcases.fetch_add(subs.get(), Ordering::Relaxed);
                     self.add_classes(&local_classes.borrow(), section);
                     {
                         let nt = local_nt.borrow();
@@ -385,17 +392,8 @@ impl Run {
         let e = sec_evals.load(Ordering::Relaxed);
         let n = sec_nt.load(Ordering::Relaxed);
         self.evaluations.fetch_add(e, Ordering::Relaxed);
-        {
-            // distinct by construction: register `n` synthetic distinct keys for this section
-            let salt = hash_str(section);
-            let mut g = self.nontrivial.lock().unwrap();
-            for i in 0..n.min(2_000_000) {
-                g.insert(splitmix64(salt ^ i));
-            }
-            if n > 2_000_000 {
-                self.extra.lock().unwrap().insert(format!("{}_nontrivial_exact", section), json!(n));
-            }
-        }
+        // cases of an enumeration are distinct by construction
+        self.enum_nontrivial.fetch_add(n, Ordering::Relaxed);
         let mut fails = fails.into_inner().unwrap();
         fails.sort_by_key(|f| f.0);
         if let Some((_, case, v)) = fails.into_iter().next() {
@@ -447,7 +445,7 @@ impl Run {
     pub fn finish(&self) -> i32 {
         let wall = self.start.elapsed().as_secs_f64();
         let violations = self.violations.lock().unwrap().clone();
-        let nontrivial = self.nontrivial.lock().unwrap().len() as u64;
+        let nontrivial = self.nontrivial.lock().unwrap().len() as u64 + self.enum_nontrivial.load(Ordering::Relaxed);
         let sections: Vec<Value> = self
             .sections
             .lock()
@@ -468,6 +466,7 @@ impl Run {
             "classes": *self.classes.lock().unwrap(),
             "sections": sections,
             "excluded_known": self.excluded_known.load(Ordering::Relaxed),
+            "sub_evaluations": self.subcases.load(Ordering::Relaxed),
             "exhaustive": self.all_exhaustive.load(Ordering::Relaxed) && !self.sections.lock().unwrap().is_empty(),
             "workers": WORKERS,
         });
